@@ -523,6 +523,29 @@ pub fn generate(prop: &str, tier: &str, seed: u64, out: &Path, nshards: usize, r
         }
         return ctx.finish("replay of one recorded input");
     }
+    // recorded witnesses first (corpus/TG/*.json: {"input": {"registry": .., "settings": ..}}): minimised
+    // failing inputs of repaired defects and of seeded changes; every single-case TG property runs them
+    if !pair {
+        let dir = crate::util::verif_dir().join("corpus").join("TG");
+        if let Ok(rd) = std::fs::read_dir(dir) {
+            let mut ps: Vec<_> = rd.filter_map(|e| e.ok()).map(|e| e.path()).filter(|p| p.extension().map(|x| x == "json").unwrap_or(false)).collect();
+            ps.sort();
+            for p in ps {
+                let Ok(t) = std::fs::read_to_string(&p) else { continue };
+                let Ok(v) = serde_json::from_str::<Value>(&t) else { continue };
+                let input = if v.get("input").is_some() { v["input"].clone() } else { v };
+                if !input["registry"].is_object() {
+                    continue;
+                }
+                let reg = reggen::to_registry(&input["registry"]);
+                let mut spec: SettingsSpec = serde_json::from_value(input["settings"].clone()).unwrap_or_default();
+                if input["settings"].is_null() {
+                    spec.ops.extend(bit_order_subs(&reg));
+                }
+                ctx.push_full("corpus-witness", &reg, Some(&input["registry"]), &spec, None);
+            }
+        }
+    }
     crate::tgprops::cases(prop, tier, &mut ctx, &mut rng);
     ctx.finish(crate::tgprops::rule(prop))
 }
